@@ -342,6 +342,46 @@ def run(tier: str, budget: Budget, rnd, prop: str) -> StreamResult:
                     if bad:
                         res.violation(bad, {**case, "coalition": c})
                         break
+    # ---------------- C08: stale rows = what ANOTHER registered computer leaves for the same knowledge ----------------
+    # ("stale bounds left by earlier computations never influence later ones": the earlier computation may have been made by a
+    # cheaper computer — fewer repetitions, the plain superadditive one — whose output is the most plausible thing to be mistaken
+    # for "already converged").  Games of any class with many exact ties (small integers), where the sam repetitions matter.
+    if prop == "C08":
+        pairs = [("sam:0", "sam:1"), ("sam:0", "sam:2"), ("sam:1", "sam:10"), ("sac", "sam:1"), ("sam:1", "sac"), ("sa", "sac"),
+                 ("sam:2", "sam:1")]
+        for gi in range(40 if tier == "quick" else 400):
+            if not budget.ok():
+                break
+            n = 5 if gi % 2 else 4
+            N = 2 ** n
+            v = [Fraction(0)] + [Fraction(-rnd.randint(1, 4)) for _ in range(N - 1)] if gi % 4 != 3 else G.sam_game(n, rnd)
+            K = G.knowledge_random(n, rnd, p=rnd.choice([0.05, 0.15, 0.3]))
+            for c1, c2 in pairs:
+                first = real_bounds(n, v, K, c1)
+                if isinstance(first, str):
+                    continue
+                stale = (first[1], first[2])
+                used = real_bounds(n, v, K, c2, stale)
+                fresh = real_bounds(n, v, K, c2)
+                res.evaluations += 1
+                res.count(f"stale-from-other-computer:{c1}->{c2}")
+                case = {"n": n, "v": [rs(x) for x in v], "K": K, "computer": c2, "tag": "stale=output of " + c1,
+                        "stale": [[rs(x) for x in s_] for s_ in stale]}
+                if used != fresh:
+                    res.violation(f"{c2} gives different bounds when the unknown rows hold what {c1} computed for the same knowledge "
+                                  f"than on a fresh table", case, key="bounds:stale-from-other-computer")
+                if not isinstance(used, str):
+                    name = f"x{ncase}"
+                    ncase += 1
+                    ls = model_lines(name, n, v, K, c2, stale)
+                    for ln in ls[:-3]:
+                        script.add(ln, None)
+                    script.add(ls[-3], "ok", case)
+                    script.add(ls[-2], None, case)
+                    pending.append((len(script) - 1, case, used))
+                    script.add(ls[-1], None)
+                    if used[1] != first[1] or used[2] != first[2]:
+                        res.nontrivial.add(("stale-other", gi, c1, c2))
     # ---------------- large player counts: property oracles on the real code only (no model tie) ---------
     large_n_oracles(prop, tier, rnd, res, budget)
     # ---------------- C07: every lattice edge whose two ends were computed -----------------------
